@@ -23,18 +23,28 @@ func RunDSL() error {
 	if len(roots) == 0 {
 		return nil
 	}
-	executed := 0
-	recursed := 0
-	for executed < len(roots) {
-		recursed++
-		start := executed
-		executed = len(roots)
-		for _, root := range roots[start:] {
-			root.WalkSets(runSet)
+	executed := make(map[string]bool, len(roots))
+	for recursed := 0; ; recursed++ {
+		var pending []Root
+		for _, root := range roots {
+			if !executed[root.EvalName()] {
+				pending = append(pending, root)
+			}
+		}
+		if len(pending) == 0 {
+			break
 		}
 		if recursed > 100 {
 			// Let's cross that bridge once we get there
 			return fmt.Errorf("too many generated roots, infinite loop?")
+		}
+		for _, root := range pending {
+			executed[root.EvalName()] = true
+			root.WalkSets(runSet)
+		}
+		// The executed DSL may have registered additional roots.
+		if roots, err = Context.Roots(); err != nil {
+			return err
 		}
 	}
 	if Context.Errors != nil {
